@@ -133,3 +133,6 @@ def run(ctx):
     # a thread whose name cannot be decoded must be "simply absent": it must not fail the dump (and with it every other entry)
     from rules import c04
     c04.rule_hard_decode(ctx, R="C15/hard-decode")
+    # the name is stored with the shared string helper: header = 2 * UTF-16 units, body = those units (same instance as C16/string)
+    from rules import c16
+    c16.rule_string(ctx, R="C15/name-string")
